@@ -73,7 +73,7 @@ TIgnored ==
 \* events that have no counterpart in this model (ledger, probes of other layers)
 TOther ==
   /\ l <= N /\ ~ign
-  /\ E.e \in {"Mem", "SrcCheck", "DropElem", "CloneElem", "End"}
+  /\ E.e \in {"Mem", "SrcCheck", "DropElem", "CloneElem", "Partial", "End"}
   /\ Skip
 
 TStop ==      \* a run that hung or aborted is not matched further
